@@ -11,13 +11,9 @@ def nonHb (reads : List Read) : List HFrame := (reads.flatMap (·.frames)).filte
 
 private theorem nonHb_eq (reads : List Read) : nonHb reads = nonHbF reads := rfl
 
-/-- SUCCESS ONLY AFTER A COMPLETE HANDSHAKE. If the attempt yields a connection then some prefix
-    of the server's reads — none of them ending the stream — carried, heartbeats aside, exactly
-    Start (offering the client's mechanism and locale), Tune (negotiable) and OpenOk, in that
-    order; and what the client put on the wire is exactly StartOk (its mechanism, response,
-    locale, information), TuneOk (the negotiated triple) and Open (its virtual host).
-    (`k` is the index of the read that completed the handshake, plus one: later reads are never
-    looked at; that read may also be one after which the server goes silent.) -/
+/- statement before fix D18 (false now: frames behind OpenOk in the read that completes the handshake
+   are accepted, so the prefix of reads may carry more than the three frames):
+
 theorem success_only_after_complete_handshake (o : Opts) (reads : List Read) (t : Triple)
     (h : (handshake false o reads).result = .connected t) :
     ∃ k mechs locales st,
@@ -26,11 +22,41 @@ theorem success_only_after_complete_handshake (o : Opts) (reads : List Read) (t 
       serverSupports mechs o.mechanism = true ∧ serverSupports locales o.locale = true ∧
       makeTuneOk o.tuning st = .ok t ∧
       (handshake false o reads).pushed =
+        [.startOk o.mechanism o.response o.locale o.information, .tuneOk t, .open_ o.vhost]
+
+   Counterexample: `o = ⟨[80], [], [101], [47], none, ⟨0, 0, 60⟩, true⟩`,
+   `reads = [⟨[.start [80] [101], .tune ⟨0, 0, 60⟩, .openOk, .other], .wouldBlock⟩]`: the attempt now
+   connects (see the `example` at the end of this file; before the fix it failed with FrameUnexpected),
+   but `nonHb (reads.take k)` is `[]` (k = 0) or the four frames (k ≥ 1), never the three. -/
+
+/-- SUCCESS ONLY AFTER A COMPLETE HANDSHAKE. If the attempt yields a connection then some prefix
+    of the server's reads — none of them ending the stream — carried, heartbeats aside, exactly
+    Start (offering the client's mechanism and locale), Tune (negotiable) and OpenOk, in that
+    order, followed (fix D18) by frames that parse and that all came in the same read as OpenOk:
+    the reads before that one carried at most Start and Tune; and what the client put on the wire
+    is exactly StartOk (its mechanism, response, locale, information), TuneOk (the negotiated
+    triple) and Open (its virtual host) — nothing is written for what came behind OpenOk.
+    (`k` is the index of the read that completed the handshake: later reads are never looked at;
+    that read may also be one after which the server goes silent.) -/
+theorem success_only_after_complete_handshake (o : Opts) (reads : List Read) (t : Triple)
+    (h : (handshake false o reads).result = .connected t) :
+    ∃ k mechs locales st extra,
+      nonHb (reads.take (k + 1)) = [.start mechs locales, .tune st, .openOk] ++ extra ∧
+      (∀ f ∈ extra, f ≠ .bad) ∧
+      nonHb (reads.take k) <+: [.start mechs locales, .tune st] ∧
+      (∀ r ∈ reads.take (k + 1), r.ending = .wouldBlock ∨ r.ending = .silence) ∧
+      serverSupports mechs o.mechanism = true ∧ serverSupports locales o.locale = true ∧
+      makeTuneOk o.tuning st = .ok t ∧
+      (handshake false o reads).pushed =
         [.startOk o.mechanism o.response o.locale o.information, .tuneOk t, .open_ o.vhost] := by
   have hi : Inv o .start [] [] := ⟨rfl, rfl⟩
-  obtain ⟨k, hk, he⟩ := hi.connected reads h
-  obtain ⟨m, l, st, hpre, hm, hl, ht, hp⟩ := hk
-  exact ⟨k, m, l, st, by simpa [nonHb_eq] using hpre, he, hm, hl, ht, hp⟩
+  obtain ⟨k, hk, ⟨s0, acc0, hs0, hk0⟩, he⟩ := hi.connected reads (by simp [Final]) h
+  obtain ⟨m, l, st, extra, hpre, hex, hm, hl, ht, hp⟩ := hk
+  simp only [List.nil_append] at hpre hk0
+  obtain ⟨tail, htail⟩ := nonHbF_take_succ reads k
+  refine ⟨k, m, l, st, extra, by rw [nonHb_eq]; exact hpre, hex, ?_, he, hm, hl, ht, hp⟩
+  rw [nonHb_eq]
+  exact prefix_of_short (htail.symm.trans hpre) (hk0.short hs0)
 
 /-- … and conversely a compliant server gets a connection, however its three frames (with any
     number of heartbeats around them) are grouped into reads. -/
@@ -89,6 +115,8 @@ theorem frame_max_too_small (o : Opts) (st : Triple) (v : Nat) (s : HState) (hs 
 theorem server_close_instead_of_open_ok (o : Opts) (t : Triple) (code : Nat) (text : Bytes) :
     hsStep o (.open_ t) (.close code text) = .ok (.serverClosing code text, [.closeOk]) := rfl
 
+/- statement before fix D18 (false now for `s = .done t`):
+
 theorem out_of_order_frame (o : Opts) (s : HState) (f : HFrame) (hf : f ≠ .heartbeat)
     (hbad : match s, f with
       | .start, .start _ _ => False
@@ -98,8 +126,68 @@ theorem out_of_order_frame (o : Opts) (s : HState) (f : HFrame) (hf : f ≠ .hea
       | .open_ _, .close _ _ => False
       | .open_ _, .openOk => False
       | _, _ => True) :
+    hsStep o s f = .error .frameUnexpected
+
+   Counterexample: `s = .done t`, `f = .other` (any `t`, any `o`): the hypotheses hold, but
+   `hsStep o (.done t) .other = .ok (.done t, [])` (`frames_behind_open_ok_are_kept`). -/
+
+theorem out_of_order_frame (o : Opts) (s : HState) (f : HFrame) (hf : f ≠ .heartbeat)
+    (hs : ∀ t, s ≠ .done t)
+    (hbad : match s, f with
+      | .start, .start _ _ => False
+      | .secure, .secure => False
+      | .secure, .tune _ => False
+      | .tune, .tune _ => False
+      | .open_ _, .close _ _ => False
+      | .open_ _, .openOk => False
+      | _, _ => True) :
     hsStep o s f = .error .frameUnexpected := by
-  cases s <;> cases f <;> simp [hsStep.eq_def] at hf hbad ⊢
+  cases s <;> cases f <;> simp [hsStep.eq_def] at hf hbad hs ⊢
+
+/-- (fix D18) Once OpenOk has been seen, whatever else the read carries is accepted — it belongs to
+    the established connection — the machine stays `done` and nothing is written for it. -/
+theorem frames_behind_open_ok_are_kept (o : Opts) (t : Triple) (f : HFrame) :
+    hsStep o (.done t) f = .ok (.done t, []) := hsStep_done o t f
+
+/-- … so a read that carries OpenOk and, behind it, any frames that parse, and then would-block,
+    completes the attempt waiting for OpenOk: the connection is up with the negotiated triple, and
+    what is on the wire is exactly what had been written so far. -/
+theorem open_ok_with_more_connects (legacy : Bool) (o : Opts) (tok : Triple) (fs : List HFrame)
+    (rest : List Read) (acc : List CFrame) (hb : ∀ f ∈ fs, f ≠ .bad) :
+    runReads legacy o (.open_ tok) (⟨.openOk :: fs, .wouldBlock⟩ :: rest) acc =
+      ⟨.connected tok, acc⟩ := by
+  have h : runFrames o (.open_ tok) (Read.mk (.openOk :: fs) .wouldBlock).frames acc =
+      (.ok (.done tok), acc) := by
+    show runFrames o (.open_ tok) (.openOk :: fs) acc = _
+    rw [runFrames_cons _ _ _ _ _ (by decide)]
+    show runFrames o (.done tok) fs (acc ++ []) = _
+    rw [List.append_nil]
+    exact runFrames_done o tok fs acc hb
+  rw [runReads_cons_ok h]
+
+/-- … and a compliant server that sends more behind OpenOk gets its connection all the same,
+    however the frames (with any number of heartbeats around them) are grouped into reads. -/
+theorem compliant_server_with_more_connects (o : Opts) (reads : List Read) (mechs locales : Bytes)
+    (st t : Triple) (extra : List HFrame)
+    (hf : nonHb reads = [.start mechs locales, .tune st, .openOk] ++ extra)
+    (hex : ∀ f ∈ extra, f ≠ .bad)
+    (he : ∀ r ∈ reads, r.ending = .wouldBlock)
+    (hm : serverSupports mechs o.mechanism = true) (hl : serverSupports locales o.locale = true)
+    (ht : makeTuneOk o.tuning st = .ok t) :
+    handshake false o reads =
+      ⟨.connected t,
+       [.startOk o.mechanism o.response o.locale o.information, .tuneOk t, .open_ o.vhost]⟩ := by
+  have hrun : runFrames o .start (nonHbF reads) [] =
+      (.ok (.done t),
+        [.startOk o.mechanism o.response o.locale o.information, .tuneOk t, .open_ o.vhost]) := by
+    rw [← nonHb_eq, hf, runFrames_append]
+    have h3 : runFrames o .start [.start mechs locales, .tune st, .openOk] [] =
+        (.ok (.done t),
+          [.startOk o.mechanism o.response o.locale o.information, .tuneOk t, .open_ o.vhost]) := by
+      simp [runFrames, hsStep.eq_def, hm, hl, ht]
+    rw [h3]
+    exact runFrames_done o t extra _ hex
+  exact runReads_of_run_done (legacy := false) reads .start [] he (by simp [Final]) hrun
 
 /-- The whole-attempt versions of the rows that depend on how the stream ends. -/
 theorem dropped_after_start_ok (o : Opts) (m l : Bytes) (hbs : List HFrame) (e : ReadEnd) (rest : List Read)
@@ -192,12 +280,25 @@ example :
     (handshake false ⟨[80], [], [101], [47], none, ⟨0, 0, 60⟩, true⟩ [⟨[.start [80] [101]], .wouldBlock⟩]).result
       = .failed .connectionTimeout := by decide
 
-/-- "done" is only checked after a whole read: a frame after OpenOk in the same read fails the
-    attempt, and the read's output is dropped. -/
+/- before fix D18: "done" is only checked after a whole read: a frame after OpenOk in the same read
+   failed the attempt, and the read's output was dropped:
 example :
     handshake false ⟨[80], [], [101], [47], none, ⟨0, 0, 60⟩, true⟩
       [⟨[.start [80] [101], .tune ⟨0, 0, 60⟩, .openOk, .other], .wouldBlock⟩]
       = ⟨.failed .frameUnexpected, []⟩ := by decide
+-/
+/-- (fix D18) "done" is only checked after a whole read, and a frame after OpenOk in the same read
+    is kept for the established connection: the attempt succeeds, the read's output is written. -/
+example :
+    handshake false ⟨[80], [], [101], [47], none, ⟨0, 0, 60⟩, true⟩
+      [⟨[.start [80] [101], .tune ⟨0, 0, 60⟩, .openOk, .other], .wouldBlock⟩]
+      = ⟨.connected ⟨65535, 4294967295, 60⟩,
+         [.startOk [80] [] [101] none, .tuneOk ⟨65535, 4294967295, 60⟩, .open_ [47]]⟩ := by decide
+/-- … while a frame that does not parse still fails it. -/
+example :
+    handshake false ⟨[80], [], [101], [47], none, ⟨0, 0, 60⟩, true⟩
+      [⟨[.start [80] [101], .tune ⟨0, 0, 60⟩, .openOk, .bad], .wouldBlock⟩]
+      = ⟨.failed .malformedFrame, []⟩ := by decide
 /-- `token_match` with an empty token: "P  Q" offers the empty word. -/
 example : serverSupports [80, 32, 32, 81] [] = true := by decide
 
